@@ -1,8 +1,15 @@
 //! Implement a lock-free pair of base_time_ms and corresponding voucher
 //! with two copies and a sequence number.
+#[cfg(not(woodpile_verif))]
 use std::sync::atomic::AtomicU64;
 use std::sync::atomic::Ordering;
+#[cfg(not(woodpile_verif))]
 use std::sync::Mutex;
+
+#[cfg(woodpile_verif)]
+use crate::verif_sync::AtomicU64;
+#[cfg(woodpile_verif)]
+use crate::verif_sync::Mutex;
 
 #[derive(Debug)]
 struct BaseTime {
